@@ -108,6 +108,8 @@ type Op struct {
 	PFDs []PFD `json:"pfds,omitempty"`
 
 	Raw   string `json:"raw,omitempty"` // hex datagram
+	// PatchSEID: at run time the header SEID of Raw is replaced by the UP SEID learnt for session Sess
+	PatchSEID bool `json:"patchseid,omitempty"`
 	Ms    int    `json:"ms,omitempty"`
 	N     int    `json:"n,omitempty"`
 	Note  string `json:"note,omitempty"`
